@@ -192,7 +192,12 @@ def generate_incbin(
     macro_definitions: MacroDefinitions,
     file_info: Token,
 ) -> GenNodes:
-    return [BinaryNode(node.file_path, resolver)]
+    binary_node = BinaryNode(node.file_path, resolver)
+    # the two names the file defines are announced like a label: until they have their value, lookups must not
+    # fall through to an outer symbol of the same name.
+    resolver.current_scope.declare(binary_node.symbol_base)
+    resolver.current_scope.declare(binary_node.symbol_base + "__size")
+    return [binary_node]
 
 
 def generate_dl(
